@@ -2,7 +2,7 @@
    every run) to the hand-written documented law (C02/Spec.v); each is closed by [exact] of a lemma of Proofs.v. *)
 From Coq Require Import Reals Bool Lra.
 From PP Require Import Kern.RBool C02.Spec Gen.KHydIncompNp Gen.KHydIncompNb Gen.KHydCompNp Gen.KHydCompNb Gen.KPmNp
-  Gen.KFriction Gen.KBasicRes Gen.KGasResNp Gen.KGasResNb Gen.KPamb.
+  Gen.KFriction Gen.KBasicRes Gen.KGasResNp Gen.KGasResNb Gen.KPamb Gen.KBranchProps.
 From PP Require C02.Proofs.
 Open Scope R_scope.
 
@@ -168,6 +168,22 @@ Theorem reported_values_consistent_numba :
     = v_mps * doc_normfactor p_abs_mean ((t_from_in + bp_TOUTINIT) / 2) comp_mean.
 Proof. exact C02.Proofs.reported_numba_lemma. Qed.
 Print Assumptions reported_values_consistent_numba.
+
+(* fluid properties of a branch are taken at: viscosity - mean of inlet (flow-corrected from node) and outlet temperature;
+   liquid density - mean of the densities at these two; gas density - mean of the real-gas densities at both ends *)
+Theorem branch_property_states :
+  (forall (bp_TOUTINIT : R) (fl_viscosity : R -> R -> R) (np_inlet_TINIT pm : R),
+     real_eta_eta bp_TOUTINIT fl_viscosity np_inlet_TINIT pm = fl_viscosity ((np_inlet_TINIT + bp_TOUTINIT) / 2) pm) /\
+  (forall (bp_TOUTINIT : R) (fl_density : R -> R) (np_inlet_TINIT : R),
+     real_rho_liq_rho bp_TOUTINIT fl_density np_inlet_TINIT = (fl_density np_inlet_TINIT + fl_density bp_TOUTINIT) / 2) /\
+  (forall (bp_TOUTINIT : R) (fl_compressibility : R -> R -> R) (fl_density : R -> R)
+          (np_inlet_PAMB np_inlet_PINIT np_inlet_TINIT np_outlet_PAMB np_outlet_PINIT : R),
+     let rho_at p T := fl_density TN_k * TN_k * p / (T * (pN_pa / bar) * fl_compressibility p T) in
+     real_rho_gas_rho bp_TOUTINIT fl_compressibility fl_density np_inlet_PAMB np_inlet_PINIT np_inlet_TINIT np_outlet_PAMB
+                      np_outlet_PINIT
+       = (rho_at (np_inlet_PINIT + np_inlet_PAMB) np_inlet_TINIT + rho_at (np_outlet_PINIT + np_outlet_PAMB) bp_TOUTINIT) / 2).
+Proof. exact C02.Proofs.branch_props_lemma. Qed.
+Print Assumptions branch_property_states.
 
 (* ambient pressure at height h = barometric formula with the constants of constants.py *)
 Theorem pamb_formula : forall h : R, p_correction_height_air_p h = doc_p_air h.
